@@ -57,97 +57,8 @@ fn expand(sc: &Scenario) -> Vec<(String, Vec<Cmd>)> {
     v
 }
 
-impl Property for C12 {
-    fn id(&self) -> &'static str {
-        "C12"
-    }
-    fn level(&self) -> &'static str {
-        "exploration"
-    }
-    fn rule(&self) -> &'static str {
-        "scenario = (input-free command list, a composition of it into entered lines with clear/help/blank lines in between, fault plan with chunked reads/EINTR/short writes/SIGINT at prompts/EOF); the real app::interpreter::run is driven in SimWorld; \
-         per line and in total the transcript must show exactly what the same commands produce when the whole program is run through the real execute::execute; \
-         non-trivial = at least 2 code lines and (a jump whose target lies on an earlier line, or a clear between two code lines, or a program-requested exit); distinct = distinct scenario content hash"
-    }
-    fn runs(&self, tier: Tier) -> u64 {
-        match tier {
-            Tier::Quick => 60_000,
-            Tier::Thorough => 5_000_000,
-        }
-    }
-    fn generate(&self, rng: &mut Rng, tier: Tier) -> Scenario {
-        let mut sc = Scenario::new("C12");
-        sc.subcommand = "interpreter".into();
-        let sw = gen::swarm(rng, Flavor::InputFree);
-        let max_cmds = if tier == Tier::Thorough && rng.chance(20) { 24 } else { 14 };
-        sc.cmds = gen::gen_program(rng, &sw, Flavor::InputFree, max_cmds);
-        if rng.chance(30) {
-            gen::optimizer_hazard(rng, &mut sc.cmds);
-            for c in sc.cmds.iter_mut() {
-                if c.kind == 5 && c.d == 0 {
-                    c.d = 3;
-                }
-            }
-        }
-        // a second program after a clear re-uses labels of the first on purpose
-        if rng.chance(25) {
-            let extra = gen::gen_program(rng, &sw, Flavor::InputFree, 6);
-            sc.set_knob("second_program_at", sc.cmds.len() as i64);
-            sc.cmds.extend(extra);
-        }
-        let n = sc.cmds.len();
-        let mut left = n;
-        let second = sc.knob("second_program_at") as usize;
-        let mut pos = 0usize;
-        while left > 0 {
-            if rng.chance(6) {
-                sc.script.push((*rng.pick(&["", " ", "help"])).to_string());
-            }
-            if second > 0 && pos == second {
-                sc.script.push("clear".to_string());
-            } else if rng.chance(5) {
-                sc.script.push("clear".to_string());
-            }
-            let mut k = match rng.below(100) {
-                0..=49 => 1,
-                50..=79 => 2,
-                _ => rng.usize(3, 6),
-            }
-            .min(left);
-            if second > pos && pos + k > second {
-                k = second - pos;
-            }
-            sc.script.push(format!("#{}", k));
-            left -= k;
-            pos += k;
-        }
-        if rng.chance(10) {
-            sc.script.push("exit".to_string());
-        }
-        sc.no_final_newline = rng.chance(20);
-        sc.set_knob("crlf", rng.chance(10) as i64);
-        let ff = rng.chance(40);
-        sc.plan = gen::gen_plan(rng, ff);
-        if !ff && rng.chance(40) {
-            for _ in 0..rng.usize(1, 3) {
-                sc.plan.sigint_at.push(rng.usize(0, sc.script.len()) as u32);
-            }
-            sc.plan.sigint_at.sort_unstable();
-            sc.plan.sigint_at.dedup();
-        }
-        sc.budget = 800;
-        sc.cap_bits = 96;
-        sc
-    }
-    fn repair(&self, sc: &mut Scenario) -> bool {
-        // keep "#k" lines within the command list after shrinking
-        let total: usize = sc.script.iter().filter_map(|l| l.strip_prefix('#').and_then(|k| k.parse::<usize>().ok())).sum();
-        if total < sc.cmds.len() {
-            sc.cmds.truncate(total);
-        }
-        true
-    }
-    fn run(&self, sc: &Scenario) -> RunOut {
+impl C12 {
+    pub fn run_mode(&self, sc: &Scenario, real: bool) -> RunOut {
         let mut out = RunOut::default();
         let mut lines = expand(sc);
         // pre-condition with the real parser: line-wise parse == the command lists
@@ -299,16 +210,36 @@ impl Property for C12 {
         plan.tick_budget = steps_total + 300;
         plan.sigint_at.retain(|&x| (x as usize) <= script.len());
         let stdin = script_bytes(&script, no_final_newline, sc.knob("crlf") == 1);
-        let (ending, _, world) = sim::run_process(plan, stdin, || {
-            use hyeong::util::option::HyeongOption;
-            use termcolor::{ColorChoice, StandardStream};
-            let mut stdout = StandardStream::stdout(ColorChoice::Never);
-            let mut stderr = StandardStream::stderr(ColorChoice::Never);
-            let opt = HyeongOption::new().color(ColorChoice::Never);
-            let r = hyeong::app::interpreter::run(&mut stdout, &opt);
-            hyeong::util::io::handle(&mut stderr, r)
-        });
-        out.absorb_world(&world);
+        let (ending, t_out, t_err, sigint): (Ending, Vec<u8>, Vec<u8>, Vec<(usize, usize)>) = if real {
+            let bin = match crate::real::binary() {
+                Ok(b) => b,
+                Err(e) => {
+                    println!("HARNESS-ERROR: {}", e);
+                    std::process::exit(2);
+                }
+            };
+            let args: Vec<String> = vec!["--color".into(), "never".into()];
+            let chunks = crate::real::chunks_from_plan(&plan, 64);
+            let r = crate::real::run(&bin, &args, None, &stdin, &chunks, std::time::Duration::from_secs(60)).expect("spawn");
+            let e = if r.timed_out || r.signal.is_some() || r.status == Some(101) {
+                Ending::Panic(format!("{} ; stderr {:?}", r.describe(), truncate(&String::from_utf8_lossy(&r.stderr), 300)))
+            } else {
+                Ending::Exit { site: "real", code: r.status.unwrap_or(-1) }
+            };
+            (e, r.stdout, r.stderr, Vec::new())
+        } else {
+            let (ending, _, world) = sim::run_process(plan, stdin, || {
+                use hyeong::util::option::HyeongOption;
+                use termcolor::{ColorChoice, StandardStream};
+                let mut stdout = StandardStream::stdout(ColorChoice::Never);
+                let mut stderr = StandardStream::stderr(ColorChoice::Never);
+                let opt = HyeongOption::new().color(ColorChoice::Never);
+                let r = hyeong::app::interpreter::run(&mut stdout, &opt);
+                hyeong::util::io::handle(&mut stderr, r)
+            });
+            out.absorb_world(&world);
+            (ending, world.out.clone(), world.err.clone(), world.sigint_ranges.clone())
+        };
         out.add("interactive_sessions", 1);
         out.add("code_lines_entered", code_lines as u64);
         out.add("jump_to_earlier_line", jumps_back_to_earlier_line as u64);
@@ -322,7 +253,7 @@ impl Property for C12 {
             return out;
         }
         // walk the transcript
-        let t = excise(&world.out, &world.sigint_ranges);
+        let t = excise(&t_out, &sigint);
         let mut pieces: Vec<Expect> = Vec::new();
         let ex = |p: Piece, c: &'static str, n: String| Expect { piece: p, clause: c, note: n };
         // banner: two lines, wording free
@@ -395,7 +326,13 @@ impl Property for C12 {
                 }
             }
         }
+        let status_of = |e: &Ending| match e {
+            Ending::Return => 0,
+            Ending::Exit { code, .. } => *code,
+            _ => -1,
+        };
         let end_ok = match (&want, &ending) {
+            (w, Ending::Exit { site: "real", code }) => status_of(w) == *code,
             (Ending::Exit { code: a, site: "interpreter_exit" | "interpreter_eof" }, Ending::Exit { code: b, site: "interpreter_exit" | "interpreter_eof" }) => a == b,
             (a, b) => a == b,
         };
@@ -404,13 +341,129 @@ impl Property for C12 {
             return out;
         }
         if stop_matching {
-            if !String::from_utf8_lossy(&world.err).contains("[error] ") {
-                out.violation = Some(Violation::new("ending", "diagnostic on stderr", truncate(&String::from_utf8_lossy(&world.err), 200)));
+            if !String::from_utf8_lossy(&t_err).contains("[error] ") {
+                out.violation = Some(Violation::new("ending", "diagnostic on stderr", truncate(&String::from_utf8_lossy(&t_err), 200)));
             }
-        } else if !world.err.is_empty() {
-            out.violation = Some(Violation::new("stderr", "nothing on the process's stderr", truncate(&String::from_utf8_lossy(&world.err), 300)));
+        } else if !t_err.is_empty() {
+            out.violation = Some(Violation::new("stderr", "nothing on the process's stderr", truncate(&String::from_utf8_lossy(&t_err), 300)));
         }
         out
+    }
+}
+
+impl Property for C12 {
+    fn id(&self) -> &'static str {
+        "C12"
+    }
+    fn level(&self) -> &'static str {
+        "exploration"
+    }
+    fn rule(&self) -> &'static str {
+        "scenario = (input-free command list, a composition of it into entered lines with clear/help/blank lines in between, fault plan with chunked reads/EINTR/short writes/SIGINT at prompts/EOF); the real app::interpreter::run is driven in SimWorld; \
+         per line and in total the transcript must show exactly what the same commands produce when the whole program is run through the real execute::execute; \
+         non-trivial = at least 2 code lines and (a jump whose target lies on an earlier line, or a clear between two code lines, or a program-requested exit); distinct = distinct scenario content hash"
+    }
+    fn runs(&self, tier: Tier) -> u64 {
+        match tier {
+            Tier::Quick => 60_000,
+            Tier::Thorough => 5_000_000,
+        }
+    }
+    fn generate(&self, rng: &mut Rng, tier: Tier) -> Scenario {
+        let mut sc = Scenario::new("C12");
+        sc.subcommand = "interpreter".into();
+        let sw = gen::swarm(rng, Flavor::InputFree);
+        let max_cmds = if tier == Tier::Thorough && rng.chance(20) { 24 } else { 14 };
+        sc.cmds = gen::gen_program(rng, &sw, Flavor::InputFree, max_cmds);
+        if rng.chance(30) {
+            gen::optimizer_hazard(rng, &mut sc.cmds);
+            for c in sc.cmds.iter_mut() {
+                if c.kind == 5 && c.d == 0 {
+                    c.d = 3;
+                }
+            }
+        }
+        // a second program after a clear re-uses labels of the first on purpose
+        if rng.chance(25) {
+            let extra = gen::gen_program(rng, &sw, Flavor::InputFree, 6);
+            sc.set_knob("second_program_at", sc.cmds.len() as i64);
+            sc.cmds.extend(extra);
+        }
+        let n = sc.cmds.len();
+        let mut left = n;
+        let second = sc.knob("second_program_at") as usize;
+        let mut pos = 0usize;
+        while left > 0 {
+            if rng.chance(6) {
+                sc.script.push((*rng.pick(&["", " ", "help"])).to_string());
+            }
+            if second > 0 && pos == second {
+                sc.script.push("clear".to_string());
+            } else if rng.chance(5) {
+                sc.script.push("clear".to_string());
+            }
+            let mut k = match rng.below(100) {
+                0..=49 => 1,
+                50..=79 => 2,
+                _ => rng.usize(3, 6),
+            }
+            .min(left);
+            if second > pos && pos + k > second {
+                k = second - pos;
+            }
+            sc.script.push(format!("#{}", k));
+            left -= k;
+            pos += k;
+        }
+        if rng.chance(10) {
+            sc.script.push("exit".to_string());
+        }
+        sc.no_final_newline = rng.chance(20);
+        sc.set_knob("crlf", rng.chance(10) as i64);
+        let ff = rng.chance(40);
+        sc.plan = gen::gen_plan(rng, ff);
+        if !ff && rng.chance(40) {
+            for _ in 0..rng.usize(1, 3) {
+                sc.plan.sigint_at.push(rng.usize(0, sc.script.len()) as u32);
+            }
+            sc.plan.sigint_at.sort_unstable();
+            sc.plan.sigint_at.dedup();
+        }
+        sc.budget = 800;
+        sc.cap_bits = 96;
+        sc
+    }
+    fn repair(&self, sc: &mut Scenario) -> bool {
+        // keep "#k" lines within the command list after shrinking
+        let total: usize = sc.script.iter().filter_map(|l| l.strip_prefix('#').and_then(|k| k.parse::<usize>().ok())).sum();
+        if total < sc.cmds.len() {
+            sc.cmds.truncate(total);
+        }
+        true
+    }
+    fn run(&self, sc: &Scenario) -> RunOut {
+        self.run_mode(sc, false)
+    }
+    fn post(&self, tier: Tier, seed: u64, stats: &mut crate::runner::Stats) -> Option<(Scenario, Violation)> {
+        let n = match tier {
+            Tier::Quick => 300,
+            Tier::Thorough => 20_000,
+        };
+        let (spawned, bad) = crate::runner::par_find(n, |i| {
+            let sc = crate::runner::make_scenario(self, seed, i, tier);
+            let out = self.run_mode(&sc, true);
+            match out.violation {
+                Some(mut v) => {
+                    v.world = "real";
+                    v.clause = format!("real-{}", v.clause);
+                    (1, Some((sc, v)))
+                }
+                None => (1, None),
+            }
+        });
+        stats.extra.push(("realworld_spawns".into(), J::Int(spawned as i64)));
+        stats.extra.push(("realworld_note".into(), J::str("release binary `hyeong --color never` (interactive interpreter) with the lines on a real pipe in planned write sizes, same transcript walk and exit status; no SIGINT in RealWorld")));
+        bad
     }
     fn components(&self) -> J {
         J::obj()
